@@ -233,11 +233,11 @@ macro_rules! wt_laws {
         }
     };
 }
-// @h props=C03,C04,C10,C12:t,C19:t tier=quick family=M prof=AB mem=5 timeout=2400 stubs=ModelBRS,utils::stable_partition_of_2->fixed_array_reference(c17) role=wt.get.u8
+// @h props=C03,C04,C10,C12:t,C19:t tier=quick family=M prof=A mem=5 timeout=2400 stubs=ModelBRS,utils::stable_partition_of_2->fixed_array_reference(c17) role=wt.get.u8
 // @bound WaveletTree<u8, ModelBRS, false>: length 3, contents symbolic with s[last] = 255 (8 levels): get for every index of the machine range
 // @funcs WaveletTree::new, WaveletTree::get, WaveletTree::get_unchecked, WaveletTree::len, WaveletTree::n_levels, utils::stable_partition_of_2, BitVectorMut::push
 wt_laws!(c03_get_u8_n3, u8, 3, 2, 8, 10, 0);
-// @h props=C03,C04,C10 tier=quick family=M prof=AB mem=5 timeout=2400 stubs=ModelBRS,utils::stable_partition_of_2->fixed_array_reference(c17) role=wt.rank.u8
+// @h props=C03,C04,C10 tier=quick family=M prof=A mem=5 timeout=2400 stubs=ModelBRS,utils::stable_partition_of_2->fixed_array_reference(c17) role=wt.rank.u8
 // @bound WaveletTree<u8, ModelBRS, false>: length 3 (s[last] = 255): rank for every symbol and position, checked and unchecked
 // @funcs WaveletTree::new, WaveletTree::rank, WaveletTree::rank_unchecked
 wt_laws!(c03_rank_u8_n3, u8, 3, 2, 8, 10, 1);
@@ -433,7 +433,7 @@ fn c19_wt_paths2_u8_n3() {
     core::mem::forget(tc);
 }
 
-// @h props=C19 tier=quick family=M mem=18 timeout=2400 stubs=ModelBRS,utils::stable_partition_of_2->fixed_array_reference(c17) role=wt.widths
+// @h props=C19:t tier=thorough family=M mem=18 timeout=2400 stubs=ModelBRS,utils::stable_partition_of_2->fixed_array_reference(c17) role=wt.widths
 // @bound the same concrete numbers [1,0,2,4,5,3] carried as u8, u32 and u64 in the binary tree: get / rank / select agree for symbolic arguments
 // @funcs WaveletTree::new, WaveletTree::get, WaveletTree::rank, WaveletTree::select
 #[kani::proof]
